@@ -4,7 +4,7 @@ import ast
 from .. import q
 from ..cfg import guards, guard_atoms
 from ..prog import strip_cast, dotted
-from .common import ApplyStep, labelled_sites, obj_is
+from .common import exactly_for_class, ApplyStep, labelled_sites, obj_is
 
 EXPLANATION = (
     'Static rules: InternalEventListener forwards iff the meta-event is `event sent`, builds exactly an Event (not an internal or meta '
@@ -93,11 +93,11 @@ def check(run):
     run.check(len(sent) == 1 and len(qe) == 1, r, ri.short, "one `event sent` and one self-queueing", 'found %d/%d' % (len(sent), len(qe)), R)
     for s in sent:
         at = guard_atoms(s.node)
-        run.check(at == [('truthy', 'isinstance(%s, InternalEvent)' % evq, '')], r, ri.short, '`event sent` exactly for InternalEvent instances', 'condition is %s' % at, s.node)
+        run.check(exactly_for_class(run, s.node, evq, 'InternalEvent'), r, ri.short, '`event sent` exactly for InternalEvent instances', 'condition is %s' % at, s.node)
         run.check(obj_is(s.extra['kwargs'].get('event'), evq) and sorted(s.extra['kwargs']) == ['event'], r, ri.short, '`event sent` carries the event object', 'differs', s.node)
         run.check(q.enclosing(s.node, (ast.For, ast.While)) is None, r, ri.short, 'reported once', 'in a loop', s.node)
     for c in qe:
-        run.check(guard_atoms(c) == [('truthy', 'isinstance(%s, InternalEvent)' % evq, '')], r, ri.short, 'self-queueing exactly for InternalEvent instances', 'condition differs', c)
+        run.check(exactly_for_class(run, c, evq, 'InternalEvent'), r, ri.short, 'self-queueing exactly for InternalEvent instances', 'condition differs', c)
     prog_ok = prog.is_subclass('InternalEvent', 'Event') and prog.is_subclass('MetaEvent', 'Event') and not prog.is_subclass('MetaEvent', 'InternalEvent') \
         and not prog.is_subclass('InternalEvent', 'MetaEvent')
     run.check(prog_ok, r, 'events', 'InternalEvent and MetaEvent are unrelated subclasses of Event', 'class hierarchy changed (a MetaEvent would be forwarded / queued)', None)
